@@ -170,6 +170,54 @@ def run(tier, seed):
                 case["impl"] = {"n": len(got), "end": end}
                 case["model"] = {"n": len(mo.get("records", [])), "end": mo.get("end"), "header": (mo.get("header") or {}).get("herr")}
                 run.fail(case, "correspondence: the model's reader disagrees on a damaged file", kind="correspondence")
+    # ---- values larger than any internal read size (64 KiB and more), the big value last in its record: cuts inside it
+    from props.c03 import read_impl as _read_schemaless
+    for kind_, mkbig in (("bytes", lambda n, i: bytes([(i * 7 + j) % 251 for j in range(64)]) * (n // 64 + 1)),
+                         ("string", lambda n, i: ("%dabcdefgh" % i) * (n // 9 + 1))):
+        for nbig in (65537, 70000, 150000):
+            sch = {"type": "record", "name": "BigTail", "fields": [{"name": "id", "type": "long"}, {"name": "body", "type": kind_}]}
+            recs = [{"id": i, "body": mkbig(nbig, i)[:nbig]} for i in range(2)]
+            ps = fastavro.parse_schema(json.loads(json.dumps(sch)))
+            want = [canon(to_wire(v)) for v in recs]
+            for codec in ("null", "deflate"):
+                fo = io.BytesIO()
+                fastavro.writer(fo, ps, recs, codec=codec, sync_interval=1000)
+                data = fo.getvalue()
+                parsed = spec_parse(data)
+                bounds = [parsed["header_len"]] + [b["offset"] + b["size"] for b in parsed["blocks"]]
+                cuts = set()
+                for b in parsed["blocks"]:
+                    end_ = b["offset"] + b["size"]
+                    cuts.update([end_ - 17, end_ - 18, end_ - 40, end_ - 1, end_ - 16])
+                    cuts.update(rnd.randrange(max(b["offset"] + 4, end_ - 70000), end_ - 16) for _ in range(scale(tier, 6)))
+                    cuts.update(rnd.randrange(b["offset"] + 1, end_) for _ in range(scale(tier, 3)))
+                for cut in sorted(x for x in cuts if 0 < x < len(data)):
+                    case = {"schema": sch, "codec": codec, "n_records": 2, "value_size": nbig, "kind": "cut", "cut": cut, "file_len": len(data),
+                            "tags": ["big-trailing-value"]}
+                    run.count(case, True, ["cut:big-trailing-value", "codec:" + codec])
+                    for mode in ("reader", "reader-sequential", "block_reader"):
+                        got, end = read_all(data[:cut], use_blocks=(mode == "block_reader"), readinto=(mode != "reader-sequential"))
+                        g = [canon(to_wire(v)) for v in got]
+                        why = None
+                        if g != want[:len(g)]:
+                            why = "yielded a record that was not written / partially decoded (a value of %d bytes cut short)" % nbig
+                        elif end == "END" and cut not in bounds:
+                            why = "ended normally although the cut (%d) is not on a block boundary %s" % (cut, bounds)
+                        if why:
+                            case["mode"], case["end"] = mode, end
+                            run.fail(case, why, kind="oracle")
+                            break
+            # schemaless: every proper prefix raises — cuts inside the big value
+            bo = io.BytesIO()
+            fastavro.schemaless_writer(bo, ps, recs[0])
+            enc = bo.getvalue()
+            for cut in sorted(set([len(enc) - 1, len(enc) - 2, len(enc) - 100, len(enc) - 4097] +
+                                  [rnd.randrange(len(enc) - 66000, len(enc)) for _ in range(scale(tier, 8))])):
+                r_ = _read_schemaless(ps, enc[:cut])
+                case = {"schema": sch, "value_size": nbig, "cut": cut, "encoding_len": len(enc), "tags": ["big-trailing-value", "schemaless-prefix"]}
+                run.count(case, True, ["schemaless-prefix:big"])
+                if "ok" in r_:
+                    run.fail(case, "a proper prefix of a schemaless encoding (cut inside a value of %d bytes) decoded to a value" % nbig, kind="oracle")
     # ---- schemaless clause on a sample
     from props.c03 import read_impl
     for (c, data, parsed, nfs) in files[:scale(tier, 30)]:
